@@ -25,7 +25,9 @@
 (*   pend     reports that are INSIDE metadataAPI.ReportLeader: they have  *)
 (*            passed the (leader, epoch) check and have not yet reached    *)
 (*            failoverStatus.report (the two are separate critical         *)
-(*            sections; sequence of [w, l, e] in check order)              *)
+(*            sections; sequence of [k, w, l, e] in check order, k =       *)
+(*            "report" | "shrink" | "expand": ShrinkISR/ExpandISR have the *)
+(*            same shape - pair check, then the Raft proposal)             *)
 (*   taint    GHOST: a report took effect although the pair it named was   *)
 (*            no longer current at that moment (known finding, see         *)
 (*            DoReportApply)                                               *)
@@ -45,6 +47,10 @@
 (*               epoch) pair again when it registers the witness (as       *)
 (*               shipped; defective when reports overlap, see              *)
 (*               DoReportApply); TRUE = today's code                       *)
+(*   RecheckISR = FALSE  ShrinkISR/ExpandISR do not look at the pair again *)
+(*               when the Raft entry is proposed (as shipped; defective    *)
+(*               when the request is overtaken by an election, see         *)
+(*               DoISRApply); TRUE = today's code                          *)
 (* They exist to generate the counterexamples that are replayed on the     *)
 (* real code.                                                              *)
 (***************************************************************************)
@@ -54,7 +60,7 @@ CONSTANTS Replicas,     \* replica ids of the partition (strings)
           Outsider,     \* an id that is not a replica (reports may come from anywhere)
           Dense,        \* TRUE: the next Raft index is epoch + 1 (bounded model);
                         \* FALSE: any larger index (recorded traces: the Raft log is shared)
-          KeepStatus, CountAll, RecheckAtApply
+          KeepStatus, CountAll, RecheckAtApply, RecheckISR
 
 VARIABLES exists, isr, leader, lepoch, pepoch, e0, fo, armed, good, obs, pend, taint
 pvars == <<exists, isr, leader, lepoch, pepoch, e0>>   \* replicated partition state
@@ -139,7 +145,7 @@ DoReportLeader(w, l, e) ==
 \* (leader, epoch) check) ...
 DoReportCheck(w, l, e) ==
   IF Stale(l, e) THEN RefuseStale("ReportCheck")
-  ELSE /\ pend' = Append(pend, [w |-> w, l |-> l, e |-> e])
+  ELSE /\ pend' = Append(pend, [k |-> "report", w |-> w, l |-> l, e |-> e])
        /\ obs' = [a |-> "ReportCheck", err |-> ""]
        /\ UNCHANGED <<exists, isr, leader, lepoch, pepoch, e0, fo, armed, good, taint>>
 
@@ -151,7 +157,7 @@ DoReportCheck(w, l, e) ==
 \* looked up / created and failoverStatus.report runs.
 \* (domain: the stream still exists)
 DoReportApply(i) ==
-  /\ i \in 1..Len(pend) /\ exists
+  /\ i \in 1..Len(pend) /\ exists /\ pend[i].k = "report"
   /\ LET r == pend[i] IN
      IF RecheckAtApply /\ Stale(r.l, r.e) THEN
        /\ obs' = [a |-> "ReportApply", err |-> "stale"]
@@ -191,6 +197,36 @@ DoExpandISR(r, l, e) ==
     /\ UNCHANGED <<exists, leader, lepoch, e0, fo, armed, pend, taint>>
     /\ good' = GoodAfterISR
     /\ obs' = [a |-> "Expand", err |-> ""]
+
+\* Overlapping ISR requests: first half of ShrinkISR / ExpandISR (partition lookup
+\* and the (leader, epoch) check; k = "shrink" | "expand") ...
+DoISRCheck(k, r, l, e) ==
+  IF Stale(l, e) THEN RefuseStale("ISRCheck")
+  ELSE /\ pend' = Append(pend, [k |-> k, w |-> r, l |-> l, e |-> e])
+       /\ obs' = [a |-> "ISRCheck", err |-> ""]
+       /\ UNCHANGED <<exists, isr, leader, lepoch, pepoch, e0, fo, armed, good, taint>>
+
+\* ... and the second half, arbitrarily later: the Raft proposal, whose
+\* precondition compares the pair AGAIN, atomically with the other metadata
+\* changes (fix "ISR changes overtaken by a failover are refused"; as shipped the
+\* entry was proposed unconditionally: a shrink request of the deposed leader
+\* could still remove a replica - even the NEW leader - from the in-sync set).
+\* (domain: the stream still exists)
+DoISRApply(i) ==
+  /\ i \in 1..Len(pend) /\ exists /\ pend[i].k \in {"shrink", "expand"}
+  /\ LET r == pend[i] IN
+     IF RecheckISR /\ Stale(r.l, r.e) THEN
+       /\ obs' = [a |-> "ISRApply", err |-> "stale"]
+       /\ UNCHANGED <<exists, isr, leader, lepoch, pepoch, e0, fo, armed, good>>
+       /\ taint' = TaintAfterApply(r.l, r.e)     \* unchanged
+     ELSE
+       /\ isr' = IF r.k = "shrink" THEN isr \ {r.w} ELSE isr \cup {r.w}
+       /\ NewIdx(pepoch', pepoch)
+       /\ UNCHANGED <<exists, leader, lepoch, e0, fo, armed>>
+       /\ good' = GoodAfterISR
+       /\ obs' = [a |-> "ISRApply", err |-> ""]
+       /\ taint' = TaintAfterApply(r.l, r.e)
+  /\ pend' = SubSeq(pend, 1, i - 1) \o SubSeq(pend, i + 1, Len(pend))
 
 \* the controller loses the metadata leadership (and regains it): LostLeadership
 \* cancels every timer and forgets every failover status
@@ -258,6 +294,15 @@ P_ReportApply(i) ==
           /\ lepoch' # lepoch =>
                /\ leader' \in isr /\ leader' # r.l
                /\ 2 * Cardinality(ValidWitnesses(r.w)) > Cardinality(Followers)
+
+\* the same for an ISR request that is inside ShrinkISR / ExpandISR
+P_ISRApply(i) ==
+  LET r == pend[i] IN
+  /\ P_Epochs
+  /\ IF Stale(r.l, r.e) THEN NoChange
+     ELSE /\ leader' = leader /\ lepoch' = lepoch /\ exists' = exists
+          /\ IF r.k = "shrink" THEN isr' \subseteq isr /\ isr \ isr' \subseteq {r.w}
+                               ELSE isr \subseteq isr' /\ isr' \ isr \subseteq {r.w}
 
 P_ReportCheck(w, l, e) == NoChange /\ (Stale(l, e) => obs'.err # "")
 
